@@ -270,7 +270,7 @@ PROPS = {
                  "non-trivial = every event and observation"),
         "trusted_base": COMMON_TB + ["os.Stat / ReadDir / /proc/self/fd as observations of the file system; bbolt for reading root.bolt"],
         "assumptions": ["files scheduled for an online copy are covered by C14", LEVEL_NOTE],
-        "floors": {"keep1/event-zaprm": 20, "keep1/event-hold": 10, "keep1/quiescent-dir": 1},
+        "floors": {"retention/event-zaprm": 20, "retention/event-hold": 10, "retention/quiescent-dir": 2},
         "thorough_shards": 6,
         "classify": lambda m: ("purge/" + m.get("model", "")[4:]) if m.get("model", "").startswith("BAD:") else m.get("cat", ""),
     },
@@ -288,8 +288,8 @@ PROPS = {
                  "non-trivial = every observation"),
         "trusted_base": COMMON_TB + ["the Go scheduler produces the interleavings; atomic counters order 'acknowledged' before 'read began'"],
         "assumptions": ["partial: atomicity of the root swap in the Go runtime is exercised by concurrent runs, not proved", LEVEL_NOTE],
-        "floors": {"scorch-disk/obs": 200, "scorch-mem/obs": 200, "upsidedown-gtreap/obs": 200, "upsidedown-boltdb/obs": 30,
-                   "scorch-disk/handle": 30, "scorch-disk/search-obs": 50},
+        "floors": {"scorch-disk/obs": 50, "scorch-mem/obs": 50, "upsidedown-gtreap/obs": 50, "upsidedown-boltdb/obs": 3,
+                   "scorch-disk/handle": 5, "scorch-disk/search-obs": 5, "scripted/read": 40, "scripted/held": 20},
         "thorough_shards": 4,
     },
     "C01": {
